@@ -847,3 +847,92 @@ B('pB4_exc_type_lookup_in_the_handler_method', ['C06', 'C08'], _RULES_F,
   (E, "        exc_info = eh.exc_info_type.from_current()\n        return eh.server_error_type(repr(exc_info),\n",
       "        exc_info = eh.exc_info_type.from_current()\n        known = getattr(exceptions, exc_info.exc_type)\n"
       "        return eh.server_error_type(known.__doc__ or repr(exc_info),\n"))
+
+# ---------------------------------------------------------------------------------------------- round 5: flags, fused handlers, fall-through
+# the slash nest flattened behind a flag with a False default: two sibling ``if`` blocks after the is_branch test
+_Q16 = _QUERY.replace('                    ', '                ')
+_S16 = _STRICT.replace('                    ', '                ')
+
+
+def _flag(default='False', value='norm_path != url_path', redirect_guard='slash_fix_due and route.slash_mode == S_REDIRECT',
+          strict_guard='slash_fix_due and route.slash_mode == S_STRICT', strict_body=_S16):
+    return ("            slash_fix_due = " + default + "\n"
+            "            if route.is_branch:\n"
+            "                norm_path = normalize_path(url_path, route.is_branch)\n"
+            "                slash_fix_due = " + value + "\n"
+            "            if " + redirect_guard + ":\n" + _Q16 +
+            "                parts = [request.url_root.rstrip('/'), url_quote(norm_path), '?', query]\n"
+            "                return redirect(''.join(parts))\n"
+            "            if " + strict_guard + ":\n" + strict_body)
+
+
+T('pB5_twin_slash_flag_default_false', ['C06', 'C07', 'C08'], (A, _SLASH, _flag()))
+T('pB5_twin_slash_flag_nested_guards', ['C06', 'C07', 'C08'],
+  (A, _SLASH, _flag(redirect_guard='slash_fix_due', strict_guard='slash_fix_due and route.slash_mode == S_STRICT').replace(
+      "            if slash_fix_due:\n" + _Q16, "            if slash_fix_due and not route.slash_mode != S_REDIRECT:\n" + _Q16)))
+B('pB5_slash_flag_default_true', ['C07'], 'R07.a', (A, _SLASH, _flag(default='True')))
+B('pB5_slash_flag_inverted', ['C07'], 'R07.a', (A, _SLASH, _flag(value='norm_path == url_path')))
+B('pB5_slash_flag_compares_other_text', ['C07'], 'R07.a', (A, _SLASH, _flag(value="norm_path != url_path.rstrip('/')")))
+B('pB5_slash_flag_strict_without_flag', ['C07'], 'R07.a', (A, _SLASH, _flag(strict_guard='route.slash_mode == S_STRICT')))
+B('pB5_slash_flag_redirect_without_flag', ['C07'], 'R07.a', (A, _SLASH, _flag(redirect_guard='route.slash_mode == S_REDIRECT')))
+B('pB5_slash_flag_strict_still_executes', ['C07'], 'R07.a',
+  (A, _SLASH, _flag(strict_body="                dispatch_state.add_exception(err_handler.not_found_type(request=request, application=self, source_route=route))\n")))
+B('pB5_slash_flag_set_again_for_leaves', ['C07'], 'R07.a',
+  (A, _SLASH, _flag().replace("            if slash_fix_due and route.slash_mode == S_REDIRECT:\n",
+                              "            else:\n                norm_path = url_path + '/'\n                slash_fix_due = route.slash_mode == S_REDIRECT\n"
+                              "            if slash_fix_due and route.slash_mode == S_REDIRECT:\n")))
+
+# one handler for everything that first lets a RerouteWSGI out again
+_BOTH = ("            except RerouteWSGI:\n                raise\n            except Exception as exc:\n" + _HANDLER)
+
+
+def _fused(test='isinstance(exc, RerouteWSGI)', again='raise', http='isinstance(exc, HTTPException)'):
+    return ("            except Exception as exc:\n"
+            "                if " + test + ":\n"
+            "                    " + again + "\n"
+            "                if " + http + ":\n"
+            "                    ret = exc\n"
+            "                else:\n"
+            "                    uncaught_params = dict(params, _route=route, _error=exc)\n"
+            "                    ret = err_handler.uncaught_to_response(**uncaught_params)\n")
+
+
+T('pB5_twin_fused_handler_reraises_reroute', ['C06', 'C08'], (A, _BOTH, _fused()))
+T('pB5_twin_fused_handler_raise_by_name', ['C06', 'C08'], (A, _BOTH, _fused(again='raise exc')))
+T('pB5_twin_fused_handler_not_reroute_else', ['C06', 'C08'],
+  (A, _BOTH, "            except Exception as exc:\n                if not isinstance(exc, RerouteWSGI):\n                    ret = exc\n"
+             "                    if not isinstance(exc, HTTPException):\n                        uncaught_params = dict(params, _route=route, _error=exc)\n"
+             "                        ret = err_handler.uncaught_to_response(**uncaught_params)\n                else:\n                    raise\n"))
+B('pB5_fused_handler_reroute_only_in_debug', ['C08'], 'R08.a', (A, _BOTH, _fused(test='isinstance(exc, RerouteWSGI) and self.debug')))
+B('pB5_fused_handler_tests_other_class', ['C08'], 'R08.a', (A, _BOTH, _fused(test='isinstance(exc, HTTPException)', http='isinstance(exc, RerouteWSGI)')))
+B('pB5_fused_handler_raises_a_new_error', ['C08'], 'R08.a', (A, _BOTH, _fused(again='raise RuntimeError(exc)')))
+B('pB5_fused_handler_reraises_more', ['C08'], 'R08.a', (A, _BOTH, _fused(test='isinstance(exc, (RerouteWSGI, ValueError))')))
+B('pB5_fused_handler_reroute_becomes_result', ['C08'], 'R08.a', (A, _BOTH, _fused(again='ret = exc')))
+B('pB5_fused_handler_rebinds_before_test', ['C08'], 'R08.a',
+  (A, _BOTH, _fused().replace("            except Exception as exc:\n", "            except Exception as exc:\n                exc = getattr(exc, '__cause__', None) or exc\n")))
+
+# normalize_path: the trailing '' as a list of its own; the empty path as the fall-through
+def _np_trailer(trailer="[''] if is_branch else []", lead="['']"):
+    return ("    segments = [x for x in path.split('/') if x]\n    if segments:\n        trailer = " + trailer + "\n"
+            "        return '/'.join(" + lead + " + segments + trailer)\n    return '/'\n")
+
+
+T('pB5_twin_normalize_trailer_list', ['C07'], (R, _NP, _np_trailer()))
+T('pB5_twin_normalize_trailer_list_statement', ['C07'],
+  (R, _NP, "    segments = [x for x in path.split('/') if x]\n    if segments:\n        trailer = []\n        if is_branch:\n            trailer = ['']\n"
+           "        return '/'.join([''] + segments + trailer)\n    return '/'\n"))
+B('pB5_normalize_trailer_inverted', ['C07'], 'R07.d', (R, _NP, _np_trailer(trailer="[] if is_branch else ['']")))
+B('pB5_normalize_trailer_always', ['C07'], 'R07.d', (R, _NP, _np_trailer(trailer="[''] if is_branch else ['']")))
+B('pB5_normalize_trailer_no_lead', ['C07'], 'R07.d', (R, _NP, _np_trailer(lead="[]")))
+B('pB5_normalize_trailer_shared_and_extended', ['C07'], 'R07.d',
+  (R, _NP, "    segments = [x for x in path.split('/') if x]\n    if segments:\n        trailer = []\n        extra = trailer\n        if is_branch:\n            extra += ['']\n"
+           "            extra += ['']\n        return '/'.join([''] + segments + trailer)\n    return '/'\n"))
+B('pB5_not_reroute_else_http_5xx_converted', ['C08'], 'R08.a',
+  (A, _BOTH, "            except Exception as exc:\n                if not isinstance(exc, RerouteWSGI):\n                    ret = exc\n"
+             "                    if not isinstance(exc, HTTPException) or exc.code >= 500:\n                        uncaught_params = dict(params, _route=route, _error=exc)\n"
+             "                        ret = err_handler.uncaught_to_response(**uncaught_params)\n                else:\n                    raise\n"))
+B('pB5_not_reroute_else_result_bound_late', ['C08'], 'R08.a',
+  (A, _BOTH, "            except Exception as exc:\n                if not isinstance(exc, RerouteWSGI):\n"
+             "                    if not isinstance(exc, HTTPException):\n                        uncaught_params = dict(params, _route=route, _error=exc)\n"
+             "                        ret = err_handler.uncaught_to_response(**uncaught_params)\n                    elif exc.code < 500:\n                        ret = exc\n"
+             "                else:\n                    raise\n"))
